@@ -77,7 +77,7 @@ func freshFuncDecls(pkgs []*packages.Package) map[*types.Func]*ast.FuncDecl {
 				if obj == nil {
 					continue
 				}
-				if baselineFns[funcObjName(obj)] || aliasedObj(obj) {
+				if (baselineFns[funcObjName(obj)] || aliasedObj(obj)) && !shimObj(obj) {
 					continue
 				}
 				if fd.Type.TypeParams != nil {
@@ -1165,7 +1165,9 @@ func buildInlinedOverlay(pkgs []*packages.Package, base map[string][]byte) *inli
 				res.Count += il.extraUses[fn]
 				continue // re-written into a deferred literal this round: still called from there
 			}
-			if n > 0 && n == uses[fn] {
+			if n > 0 && n == uses[fn] && !shimObj(fn) {
+				// (a forwarding wrapper of a baseline name stays: it is what ties the new variant to
+				// that name)
 				// the declaration is kept under the blank name: its imports stay used, go/ssa
 				// does not build blank functions
 				fd := il.fresh[fn]
@@ -2812,6 +2814,15 @@ func (il *inliner) pureFresh(fd *ast.FuncDecl, depth int) bool {
 			if cid != nil {
 				if fn, _ := info.Uses[cid].(*types.Func); fn != nil && il.fresh[fn] != nil && il.fresh[fn] != fd && il.pureFresh(il.fresh[fn], depth+1) {
 					return true
+				}
+				// the read-only methods of a context
+				if fn, _ := info.Uses[cid].(*types.Func); fn != nil && fn.Pkg() != nil && fn.Pkg().Path() == "context" {
+					switch fn.Name() {
+					case "Value", "Err", "Deadline":
+						if sig, _ := fn.Type().(*types.Signature); sig != nil && sig.Recv() != nil {
+							return true
+						}
+					}
 				}
 			}
 			ok = false
